@@ -24,6 +24,8 @@ Dot(p, q) == p[1] * q[1] + p[2] * q[2] + p[3] * q[3] + p[4] * q[4]
 RECURSIVE UpperFrom(_, _)
 UpperFrom(q, i) == IF i > Len(q) THEN FALSE ELSE IF q[i] > 0 THEN TRUE ELSE IF q[i] < 0 THEN FALSE ELSE UpperFrom(q, i + 1)
 Upper(q) == UpperFrom(q, 1)
+Upper4(q) == \/ q[1] > 0 \/ (q[1] = 0 /\ q[2] > 0) \/ (q[1] = 0 /\ q[2] = 0 /\ q[3] > 0)          \* unrolled; proofs/QuatProof.tla
+             \/ (q[1] = 0 /\ q[2] = 0 /\ q[3] = 0 /\ q[4] > 0)
 Canon(q) == IF Upper(q) THEN q ELSE Neg(q)
 Lower(q) == IF Upper(q) THEN Neg(q) ELSE q
 SameRot(p, q) == p = q \/ p = Neg(q)
@@ -83,6 +85,7 @@ Cells8(rows) == [c \in 1 .. 8 |-> LET k == IF c <= 4 THEN c ELSE c - 4
 (* ---- algebra, checked on all of Q24 at the initial state ---- *)
 Algebra ==
   /\ Cardinality(Q24) = 24
+  /\ \A q \in Q24 : Upper(q) = Upper4(q)                                \* the recursive definition is the unrolled one (UpperIsUnrolled)
   /\ \A q \in Q24 : Upper(q) # Upper(Neg(q))                             \* exactly one of q, -q is canonical
   /\ \A q \in Q24 : Upper(Canon(q)) /\ SameRot(q, Canon(q)) /\ ~Upper(Lower(q))
   /\ Cardinality({Canon(q) : q \in Q24}) = 12
